@@ -16,6 +16,18 @@ CHECKS = {
         note="Trusted: TLC/SANY, JSON transport of ints < 2^31, numpy slicing. Not covered: n or start_idx >= 2^31.",
         technique="TLA+ spec (Partition/PartitionAlg) model-checked with TLC; spec->code replay of TLC-enumerated inputs; code->spec trace validation",
     ),
+    "C15": dict(
+        category="model_checking",
+        text=("TLC exhausts RVDataAlg (Mask;Sort;SetTRef as the constructor performs them, any time-sorting permutation) against "
+              "the declarative clauses of RVData for <=3 (thorough: 4) observations with duplicate times and every placement of "
+              "one non-finite component; every enumerated input is built with the real constructor under rotating (t_ref mode, "
+              "unit, 1-D error / covariance, float / Time input), then copied and sliced; those traces plus seeded random ones "
+              "(to 200 observations) are validated by the RVDataTrace monitor (membership: order among equal times is free)."),
+        design_ref="DESIGN.md section 3 C15",
+        note=("Trusted: TLC, astropy Time/units, the value-encodes-identity projection (rv=id, err=id/8, cov[i][j]=1000i+j). "
+              "Inverse covariance is checked exactly on integer unimodular matrices only. Inputs with no finite observation are skipped."),
+        technique="TLA+ spec (RVData/RVDataAlg) model-checked with TLC; replay of TLC-enumerated inputs; trace validation by total monitor",
+    ),
 }
 
 NOT_YET = "check not built yet (build in progress; see DESIGN.md section 7)"
